@@ -345,8 +345,8 @@ func c01r9(c *Ctx) {
 			}
 			n++
 			onlyNew := underEdges(fn, ins.Block(), newTrue)
-			c.Check("a DNS service's endpoint update requests a cluster push when the old object had inlined endpoints: "+stableFnName(fn), ins.Pos(), !onlyNew && nOld > 0,
-				"the full push for an endpoint update of a DNS / DNS_ROUND_ROBIN ServiceEntry is requested only when the NEW object carries HasDNSServiceEndpoint, and that flag is computed from the instances present: when the last selected WorkloadEntry goes away the new object has no instances, the flag is false, only an endpoints-only push is sent, and the STRICT_DNS / LOGICAL_DNS cluster - which inlines the removed address - is not rebuilt; the proxy keeps the stale cluster while a fresh control plane generates none")
+			c.Check("a DNS service's endpoint update requests a cluster push when the old object had inlined endpoints (HasDNSServiceEndpoint -> ConfigUpdate)", ins.Pos(), !onlyNew && nOld > 0,
+				"in "+stableFnName(fn)+" the full push for an endpoint update of a DNS / DNS_ROUND_ROBIN ServiceEntry is requested only when the NEW object carries HasDNSServiceEndpoint, and that flag is computed from the instances present: when the last selected WorkloadEntry goes away the new object has no instances, the flag is false, only an endpoints-only push is sent, and the STRICT_DNS / LOGICAL_DNS cluster - which inlines the removed address - is not rebuilt; the proxy keeps the stale cluster while a fresh control plane generates none")
 		})
 	}
 	c.Floor(1)
